@@ -137,7 +137,8 @@ def handleRegion (circular : Bool) (L : Int) (rec : BioRecord) (j : Json) : R Js
                ("scope_wf", toJson (wfInput rd rec)),
                ("kf_prepeptide_cut", toJson (prepeptideCut L rd rec.features)),
                ("kf_equal_areas", toJson (equalAreas rd)),
-               ("kf_exons_span_file", toJson (exonsSpanFile circular L rd rec.features))]
+               ("kf_exons_span_file", toJson (exonsSpanFile circular L rd rec.features)),
+               ("kf_file_reconnects", toJson (fileReconnects circular L rd))]
 
 def handle (j : Json) : R Json := do
   let seq ← strF j "seq"
